@@ -29,9 +29,9 @@ Record case := mkCase {
 }.
 
 Definition plan_ok : rplan := mkPlan WOk WOk ROk WOk.
-Definition a_ok : adv := mkAdv false false false (mkDev 1 0) ROk ROk 0 plan_ok.
-Definition a_sweep_ok : adv := mkAdv false true true (mkDev 1 0) ROk ROk 0 plan_ok.
-Definition a_init_fail : adv := mkAdv true true false (mkDev 1 0) ROk ROk 0 plan_ok.
+Definition a_ok : adv := mkAdv false false false false (mkDev 1 0) ROk ROk 0 plan_ok.
+Definition a_sweep_ok : adv := mkAdv false true false true (mkDev 1 0) ROk ROk 0 plan_ok.
+Definition a_init_fail : adv := mkAdv true true false false (mkDev 1 0) ROk ROk 0 plan_ok.
 Definition t_ok : tick := mkTick (mkDev 1 0) false plan_ok.
 Definition t_err : tick := mkTick (mkDev 1 0) true plan_ok.
 
